@@ -348,7 +348,8 @@ PairChecks(ev, t1) ==
        /\ Chk("C19", "presentation", kind = "c19" => TablesEqual(t0, t1, NoStamps), ev, ev.tag.opt)
        /\ Chk("C19", "observer", kind = "c19o" => TablesEqual(t0, t1, NoDist), ev, "O")
        /\ Chk("C19", "update.method", kind = "c19u" => TablesEqual(t0, t1, NineParams), ev, "U")
-       /\ Mark("C19", kind \in {"c19", "c19o", "c19u"} /\ ev.ch # <<>>, ev)
+       /\ Chk("C19", "update.method.alt", kind = "c19ua" => TablesEqual(t0, t1, LAMBDA r : r.alt), ev, "U.alt")
+       /\ Mark("C19", kind \in {"c19", "c19o", "c19u", "c19ua"} /\ ev.ch # <<>>, ev)
 
 
 (***************************** reduced sweeps ******************************)
